@@ -36,8 +36,14 @@ Section WithEv.
       exfalso; eapply Hnp; reflexivity.
   Qed.
 
-  Lemma with_finally_none d env (rest : M val) st : with_finally ev d None env rest st = rest st.
-  Proof. unfold with_finally. destruct (rest st) as [r st1]. destruct r; reflexivity. Qed.
+  (** without a finally clause (and without a Stepper: the deferred do(nil) only touches the
+      debugger flags) the try form adds nothing *)
+  Lemma with_finally_none d env (rest : M val) st :
+    dbg (snd (rest st)) = None -> with_finally ev d None env rest st = rest st.
+  Proof.
+    unfold with_finally. destruct (rest st) as [r st1]. simpl. intros H.
+    unfold outing_hook. rewrite H. destruct r; reflexivity.
+  Qed.
 
   (** errors raised in the handler are not caught by the same try; errors of the body are
       handed to the handler with the state the body left *)
@@ -163,7 +169,7 @@ Lemma eval_macro_call n d head p rest cur env st mac :
   macro_of st (VList (VSym head p :: rest) cur) env = Some mac ->
   eval (S n) d (VList (VSym head p :: rest) cur) env st =
   prop (macroexpand (eval n) (call_builtin n (eval n)) n d (VList (VSym head p :: rest) cur) env st)
-       (fun ast' st' => eval_step (eval n) (call_builtin n (eval n)) n d ast' env st').
+       (fun ast' st' => eval_step (eval n) (eval n) (call_builtin n (eval n)) n d ast' env st').
 Proof.
   intros H. cbn [eval]. unfold eval_step at 1. rewrite bindM_prop.
   destruct (macroexpand _ _ n d _ env st) as [[ast'| | |] st'] eqn:E; cbn [prop]; auto.
@@ -218,3 +224,51 @@ Proof.
   destruct (has_module p); reflexivity.
 Qed.
 
+
+(** ---------- C18: the debugger section ---------- *)
+Lemma dbg_entry_no_stepper ast env body st : dbg st = None -> dbg_entry ast env body st = body st.
+Proof. intros H. unfold dbg_entry. now rewrite H. Qed.
+
+Lemma outing_hook_outcome (m : M val) st : fst (outing_hook m st) = fst (m st).
+Proof.
+  unfold outing_hook. destruct (dbg st) as [g|]; auto. destruct (douting1 g); auto.
+  destruct (m st); reflexivity.
+Qed.
+
+Lemma outing_hook_no_stepper (m : M val) st : dbg st = None -> outing_hook m st = m st.
+Proof. intros H. unfold outing_hook. now rewrite H. Qed.
+
+(** whatever the flags and whatever the command, the debugger section only decides whether the
+    callback is consulted and rewrites flags: the outcome is the outcome of the rest of EVAL
+    (run on a state that differs in the debugger field only) — unless the callback returns a
+    command outside the four, which is a host panic *)
+Lemma dbg_entry_outcome ast env body st g g1 nd :
+  dbg st = Some g -> dbg_decide g ast env = (g1, nd, false) ->
+  fst (dbg_entry ast env body st) = fst (body (set_dbg st (Some g1))).
+Proof.
+  intros Hg Hd. unfold dbg_entry. rewrite Hg, Hd.
+  destruct (body (set_dbg st (Some g1))) as [r st']. reflexivity.
+Qed.
+
+(** the decision never reports a bad command unless the callback returned one *)
+Lemma dbg_decide_ok g ast env :
+  (dskip g = true \/ match dcmds g with CBad :: _ => False | _ => True end) ->
+  exists g1 nd, dbg_decide g ast env = (g1, nd, false).
+Proof.
+  intros H. unfold dbg_decide. destruct (dskip g); [eauto|]. destruct H as [H|H]; [discriminate|].
+  destruct (dcmds g) as [|c cs]; [eauto|]. destruct c; try contradiction; eauto.
+Qed.
+
+Lemma dbg_entry_bad_command ast env body st g cs :
+  dbg st = Some g -> dskip g = false -> dcmds g = CBad :: cs ->
+  exists s st', dbg_entry ast env body st = (Panic s, st').
+Proof. intros Hg Hs Hc. unfold dbg_entry, dbg_decide. rewrite Hg, Hs, Hc. cbn. eauto. Qed.
+
+(** the callback is handed exactly the form and the scope this EVAL invocation is about to evaluate *)
+Lemma dbg_decide_logs_its_arguments g ast env c cs :
+  dskip g = false -> dcmds g = c :: cs -> c <> CBad ->
+  exists g1 nd, dbg_decide g ast env = (g1, nd, false) /\ dlog g1 = (ast, env) :: dlog g /\ dcmds g1 = cs.
+Proof.
+  intros Hs Hc Hne. unfold dbg_decide. rewrite Hs, Hc.
+  destruct c; try congruence; eexists; eexists; (split; [reflexivity|]); split; reflexivity.
+Qed.
